@@ -5,6 +5,7 @@ package main
 
 import (
 	"fmt"
+	"os"
 	"strconv"
 )
 
@@ -273,6 +274,9 @@ func (w *Worker) assertion(st *State, label string, c *Term) {
 		j.Discharged++
 		j.noteProved(label, st, q)
 	case Unknown:
+		if d := os.Getenv("VERIF_DUMP_UNKNOWN"); d != "" {
+			os.WriteFile(fmt.Sprintf("%s/unknown-%s-%d.smt2", d, label, j.Obligations), []byte(standaloneScript(q)), 0o644)
+		}
 		j.noteUnknown("assert " + label)
 		j.Inconclusive = append(j.Inconclusive, label)
 	case Sat:
